@@ -328,6 +328,7 @@ class Lexer:
                         self.path_stack[-1].path.append(self._index(match.group()))
                         self.pos += match.end() - match.start()
                         self.start = self.pos
+                        self.path_stack[-1].stop = self.pos
                     else:
                         self.error("array indexes must use bracket notation")
                 else:
